@@ -4,6 +4,9 @@
 package main
 
 import (
+	"strings"
+	"sort"
+	"bytes"
 	"bufio"
 	"flag"
 	"fmt"
@@ -22,6 +25,7 @@ type ctx struct {
 	r    *rand.Rand
 	n    int
 	work string
+	useThenExtend int
 	prop string
 	pid  int
 }
@@ -46,7 +50,27 @@ func safeSanitize(p *bluemonday.Policy, in []byte) (res string) {
 // policy registers a built policy with the driver and returns its id.
 func (c *ctx) policy(ops []*bmx.Op) (int, *bluemonday.Policy) {
 	c.pid++
-	pol := bmx.Build(ops)
+	var pol *bluemonday.Policy
+	zero := len(ops) > 0 && ops[0].Kind == "ZERO"
+	if !zero && len(ops) >= 2 && c.r.Intn(4) == 0 {
+		// use-then-extend: the policy sanitises documents written in its final vocabulary while
+		// it is still half built; a policy is its rule set, so this must leave no trace
+		pol = bmx.NewBase(ops)
+		k := 1 + c.r.Intn(len(ops)-1)
+		for _, o := range ops[:k] {
+			o.Apply(pol)
+		}
+		g := bmx.NewDocGen(c.r, ops)
+		for i := 0; i < 3; i++ {
+			safeSanitize(pol, g.Doc(4+c.r.Intn(8)))
+		}
+		for _, o := range ops[k:] {
+			o.Apply(pol)
+		}
+		c.useThenExtend++
+	} else {
+		pol = bmx.Build(ops)
+	}
 	fmt.Fprintf(c.w, "policy %d %s %s\n", c.pid, bmx.EncodeOps(ops), bmx.HexS(pol.VerifDump(bmx.RegexNamer(ops))))
 	return c.pid, pol
 }
@@ -101,6 +125,37 @@ func main() {
 		os.Exit(2)
 	}
 	fn(c)
+	c.stat("use_then_extend_policies", c.useThenExtend)
+	c.aliasCheck()
+}
+
+// aliasCheck: results handed out earlier must not change when the library is used again, and
+// the caller's input buffers must not be written to (C13 "independent of earlier calls",
+// C15 "the caller's input buffer is never modified").  One `alias` line per probe.
+func (c *ctx) aliasCheck() {
+	if c.prop != "C13" && c.prop != "C15" {
+		return
+	}
+	pols := []*bluemonday.Policy{bluemonday.UGCPolicy(), bluemonday.StrictPolicy(), bluemonday.UGCPolicy().AddSpaceWhenStrippingTag(true)}
+	g := bmx.NewDocGen(c.r, ugcVocabOps())
+	type held struct {
+		in, inCopy, out, outCopy []byte
+	}
+	var hs []held
+	for i := 0; i < 40; i++ {
+		in := g.Doc(2 + c.r.Intn(30))
+		h := held{in: in, inCopy: append([]byte{}, in...)}
+		h.out = pols[i%len(pols)].SanitizeBytes(in)
+		h.outCopy = append([]byte{}, h.out...)
+		hs = append(hs, h)
+		// interleave the other entry points
+		_ = pols[(i+1)%len(pols)].Sanitize(string(g.Doc(1 + c.r.Intn(30))))
+		_ = pols[(i+2)%len(pols)].SanitizeReader(bytes.NewReader(g.Doc(1 + c.r.Intn(30))))
+	}
+	for _, h := range hs {
+		ok := bytes.Equal(h.in, h.inCopy) && bytes.Equal(h.out, h.outCopy)
+		fmt.Fprintf(c.w, "alias %s %s %s %s\n", bmx.HexField(h.inCopy), bmx.HexField(h.outCopy), bmx.HexField(h.out), b01(ok))
+	}
 }
 
 func init() {
@@ -155,6 +210,53 @@ func init() {
 					acceptedN++
 				}
 				fmt.Fprintf(c.w, "hdl %s %s %s\n", bmx.HexS(prop), bmx.HexS(v), b01(ok))
+			}
+		}
+		// systematic placement of every hostile fragment around and inside accepted values: as a
+		// further list entry, as a further component, glued on, and inside url(...)
+		nAcc := 2
+		if c.n > 100000 {
+			nAcc = 6
+		}
+		for _, prop := range g.Props {
+			h := css.GetDefaultHandler(prop)
+			var accepted []string
+			for _, t := range all {
+				if t != "" && h(t) {
+					accepted = append(accepted, t)
+				}
+			}
+			// the longest accepted values (lists, shorthands) and those with a url() first
+			sort.SliceStable(accepted, func(i, j int) bool {
+				ui, uj := strings.Contains(accepted[i], "url("), strings.Contains(accepted[j], "url(")
+				if ui != uj {
+					return ui
+				}
+				return len(accepted[i]) > len(accepted[j])
+			})
+			if len(accepted) > nAcc {
+				accepted = append(accepted[:nAcc-1], accepted[len(accepted)-1])
+			}
+			for _, a := range accepted {
+				for _, hf := range bmx.Hostile {
+					vs := []string{a + ", " + hf, a + "," + hf, hf + ", " + a, a + " " + hf, hf + " " + a, a + hf, a + "/" + hf, a + ", " + a + " " + hf}
+					if i := strings.Index(a, "url("); i >= 0 {
+						if j := strings.Index(a[i:], ")"); j > 0 {
+							vs = append(vs, a[:i+j]+hf+a[i+j:])
+							q := i + j
+							if a[q-1] == '\'' || a[q-1] == '"' {
+								vs = append(vs, a[:q-1]+hf+a[q-1:])
+							}
+						}
+					}
+					for _, v := range vs {
+						ok := h(v)
+						if ok {
+							acceptedN++
+						}
+						fmt.Fprintf(c.w, "hdl %s %s %s\n", bmx.HexS(prop), bmx.HexS(v), b01(ok))
+					}
+				}
 			}
 		}
 		for _, v := range all {
